@@ -37,6 +37,7 @@ type Stats struct {
 	counters  map[string]int64
 	distinct  map[string]struct{}
 	nontriv   map[string]struct{}
+	groups    map[string]map[string]struct{}
 	samples   []any
 	Processes int64
 	Steps     int64
@@ -49,6 +50,19 @@ func NewStats() *Stats {
 func (s *Stats) Add(key string, n int64) {
 	s.mu.Lock()
 	s.counters[key] += n
+	s.mu.Unlock()
+}
+
+// DistinctIn counts distinct signatures per named group (e.g. interleavings).
+func (s *Stats) DistinctIn(group, sig string) {
+	s.mu.Lock()
+	if s.groups == nil {
+		s.groups = map[string]map[string]struct{}{}
+	}
+	if s.groups[group] == nil {
+		s.groups[group] = map[string]struct{}{}
+	}
+	s.groups[group][sig] = struct{}{}
 	s.mu.Unlock()
 }
 
@@ -584,6 +598,10 @@ func writeEvidence(cfg BatchConfig, chk Check, st *Stats, ex evidenceExtra) {
 			other[k] = v
 		}
 	}
+	byGroup := map[string]int{}
+	for g, m := range st.groups {
+		byGroup[g] = len(m)
+	}
 	samples := st.samples
 	distinct := len(st.distinct)
 	nontriv := len(st.nontriv)
@@ -596,6 +614,7 @@ func writeEvidence(cfg BatchConfig, chk Check, st *Stats, ex evidenceExtra) {
 		"evaluations":                ex.evaluations,
 		"distinct_nontrivial":        nontriv,
 		"distinct_executions":        distinct,
+		"distinct_by_measure":        byGroup,
 		"rule":                       info.Rule,
 		"samples":                    samples,
 		"processes_spawned":          st.Processes,
